@@ -157,14 +157,14 @@ End Listing.
 
 (* ------------------------------------------------------------------ ONE CLEANUP *)
 (* what cleanup_impl does once it has the listing *)
-Definition cleanup_body (w : world) (files : list bytes) (n m : nat) : res unit * world :=
+Definition cleanup_body (w : world) (files : list bytes) (n m : nat) (cur : option bytes) : res unit * world :=
   let '(ok0, w1', files') := remove_redundant w (redundant_gz files) files in
   if negb ok0 then (Err, w1') else
-  let '(ok, w2) := cleanup_loop w1' files' 0 n (n + m) in ((if ok then Ok tt else Err), w2).
+  let '(ok, w2) := cleanup_loop w1' files' 0 n (n + m) cur in ((if ok then Ok tt else Err), w2).
 
 Theorem gcleanup nmf cn w n m closed lo mid :
   gnames nmf cn (length closed) -> quiet w -> fs_wf (wfs w) -> gdir nmf cn (wfs w) closed lo mid ->
-  exists w', cleanup_body w (glisting nmf lo mid (length closed)) n m = (Ok tt, w') /\ same_env w w' /\ fs_wf (wfs w')
+  exists w', cleanup_body w (glisting nmf lo mid (length closed)) n m None = (Ok tt, w') /\ same_env w w' /\ fs_wf (wfs w')
     /\ gdir nmf cn (wfs w') closed (Nat.max lo (length closed - (n + m))) (Nat.max mid (length closed - n))
     /\ same_at (wfs w) (wfs w') cn
     /\ (forall i, Nat.max mid (length closed - n) <= i < length closed -> same_at (wfs w) (wfs w') (nmf i)).
@@ -209,7 +209,7 @@ Proof.
              /\ (n <= L - 1 - i < n + m -> ext_is (gentry nmf mid i) gz_sfx = false -> archived f f' (gentry nmf mid i))).
   { intros i Hi. apply (O (L - 1 - i)). apply glisting_nth_of; assumption. }
   assert (NDf' : nodup_names f').
-  { unfold f'. replace w' with (snd (cleanup_loop w files 0 n (n + m))) by (rewrite E; reflexivity).
+  { unfold f'. replace w' with (snd (cleanup_loop w files 0 n (n + m) None)) by (rewrite E; reflexivity).
     apply cleanup_loop_nd. exact Hnd. }
   set (made := map gz_name (filter not_gz (zone_part n (n + m) files))).
   assert (Made : forall x, In x made <-> exists i, mid <= i < L /\ n <= L - 1 - i < n + m /\ x = gzf nmf i).
@@ -271,6 +271,37 @@ Proof.
     apply K; [lia | left; lia].
 Qed.
 Print Assumptions gcleanup.
+
+(* The same with the current output file handed over (a DIRECT naming: cur = Some (the newest named file), first limit at
+   least 1): the file is at position 0 of the listing - if it is listed at all -, where it is kept anyway; that the loop
+   skips it makes no difference. *)
+Lemma cleanup_body_cur_newest nmf cn w n m L lo mid :
+  gnames nmf cn L -> lo <= mid <= L -> 1 <= n ->
+  cleanup_body w (glisting nmf lo mid L) n m (Some (nmf (L - 1))) = cleanup_body w (glisting nmf lo mid L) n m None.
+Proof.
+  intros GN Hle Hn. unfold cleanup_body.
+  rewrite (glisting_no_redundant nmf cn L GN lo mid Hle). cbn [remove_redundant negb].
+  rewrite (cleanup_loop_cur_kept n (n + m) (nmf (L - 1))); [reflexivity|].
+  intros k0 Hk0. cbn [Nat.add]. apply glisting_nth_inv in Hk0; [|exact Hle]. destruct Hk0 as [Hk1 Ee].
+  assert (k0 = 0).
+  { unfold gentry in Ee. destruct (mid <=? L - 1 - k0).
+    - apply (gn_inj _ _ _ GN) in Ee; lia.
+    - exfalso. symmetry in Ee. apply (gzf_not_nmf _ _ _ GN) in Ee; [exact Ee | lia | lia]. }
+  subst k0. apply act_keep. split; [lia | left; lia].
+Qed.
+
+Theorem gcleanup_d nmf cn w n m closed lo mid :
+  gnames nmf cn (length closed) -> quiet w -> fs_wf (wfs w) -> gdir nmf cn (wfs w) closed lo mid -> 1 <= n ->
+  exists w', cleanup_body w (glisting nmf lo mid (length closed)) n m (Some (nmf (length closed - 1))) = (Ok tt, w')
+    /\ same_env w w' /\ fs_wf (wfs w')
+    /\ gdir nmf cn (wfs w') closed (Nat.max lo (length closed - (n + m))) (Nat.max mid (length closed - n))
+    /\ same_at (wfs w) (wfs w') cn
+    /\ (forall i, Nat.max mid (length closed - n) <= i < length closed -> same_at (wfs w) (wfs w') (nmf i)).
+Proof.
+  intros GN Q W KD Hn. rewrite (cleanup_body_cur_newest nmf cn w n m (length closed) lo mid GN (gd_le _ _ _ _ _ _ KD) Hn).
+  apply gcleanup; assumption.
+Qed.
+Print Assumptions gcleanup_d.
 
 (* ------------------------------------------------------------------ the steps of a writer with a DIRECT naming *)
 (* (the file being written is the newest named file nmf L, L = number of closed files; `closed` of gdir lists the contents of
